@@ -1,6 +1,6 @@
 """C16 topology diffs."""
 from prog import Program
-import effects, flags, diffrules, atomic, nullness, errno_rule, peval
+import effects, flags, diffrules, atomic, nullness, errno_rule, peval, union
 
 
 def run(chk, tier):
@@ -16,6 +16,9 @@ def run(chk, tier):
     chk.rule("R-ATOMIC", "hwloc_apply_diff_one cannot fail after it has written the object (all paths, constant propagation)")
     nf = atomic.check(chk, P, E, "hwloc_apply_diff_one", "diff.c", atomic.topo_writes(E, arg_indices=(0, 1)))
     chk.floor("R-ATOMIC", "failure returns of hwloc_apply_diff_one", nf, 4)
+    chk.rule("R-UNION", "the type-specific attribute union obj->attr is accessed only under a matching obj->type: every self-discriminating function is explored once per object type (21 values, product for two objects) by seeded constant propagation; guards are evaluated, not pattern-matched")
+    nun, nuf = union.run(chk, P, units=('diff.c',))
+    chk.floor("R-UNION", "union accesses judged", nun, 6)
     chk.rule("R-FLAGS", "flag words of build/apply (see C10)")
     ns, nw = flags.run(chk, P, "C16", effects=E)
     chk.floor("R-FLAGS", "entry points", ns, 2)
@@ -23,7 +26,8 @@ def run(chk, tier):
     N = nullness.Nullness(P)
     v, us = N.run(chk, "topology-xml.c", funcs=["hwloc__xml_import_diff_one", "hwloc__xml_import_diff"])
     chk.floor("R-NULLATTR", "optional pointers in hwloc__xml_import_diff_one", v, 5)
-    chk.decided += ["a diff that build returns can be applied and exported: no NULL value strings are produced (all producer sites, all paths)",
+    chk.decided += ['diff compares type-specific attributes only under the matching object type of both objects',
+                    "a diff that build returns can be applied and exported: no NULL value strings are produced (all producer sites, all paths)",
                     "the N-th entry failing leaves the topology as before: apply_diff_one never fails after writing; roll-back re-applies the prefix with REVERSE flipped; returns -N",
                     "REVERSE symmetry of the three arms", "flag validation and EPERM/EINVAL prefixes", "diff XML import never dereferences a missing attribute"]
     chk.undecided += ["apply(build(A,B)) makes A equal to B (value)", "TOO_COMPLEX exactly when something inexpressible differs (comparison extents are value-level)"]
